@@ -40,6 +40,7 @@ type Cfg struct {
 	WFault  bool   `json:"wfault"` // the schedule may take the link down: writes fail while it is down
 	ErrKind int    `json:"-"`      // what a failed write returns: 0 plain error, 1 temporary net.Error, 2 timeout net.Error
 	Dest    int    `json:"-"`      // destination variant (broadcast / unicast / scoped link-local / scoped multicast)
+	Raw     bool   `json:"-"`      // DHCPv4 only: the client runs over its raw-socket layer (BroadcastRawUDPConn): datagrams arrive and leave as IPv4/UDP frames
 }
 
 type dgram struct {
@@ -550,7 +551,7 @@ func (s *Sim) abort() {
 
 func (s *Sim) JSON(id int) []byte {
 	cfg := map[string]any{"T": s.cfg.T, "tries": s.cfg.Tries, "bufcap": s.cfg.BufCap, "v4": s.cfg.V4, "xid": s.cfg.Xid,
-		"urgent": s.cfg.Urgent, "timed": s.cfg.Timed, "mode": s.cfg.Mode, "wfault": s.cfg.WFault, "errkind": s.cfg.ErrKind, "dest": s.cfg.Dest}
+		"urgent": s.cfg.Urgent, "timed": s.cfg.Timed, "mode": s.cfg.Mode, "wfault": s.cfg.WFault, "errkind": s.cfg.ErrKind, "dest": s.cfg.Dest, "raw": s.cfg.Raw}
 	b, err := json.Marshal(map[string]any{"id": id, "cfg": cfg, "ev": s.trace})
 	if err != nil {
 		panic(err)
@@ -665,3 +666,103 @@ func (f *fakeConn) LocalAddr() net.Addr                { return &net.UDPAddr{IP:
 func (f *fakeConn) SetDeadline(t time.Time) error      { return nil }
 func (f *fakeConn) SetReadDeadline(t time.Time) error  { return nil }
 func (f *fakeConn) SetWriteDeadline(t time.Time) error { return nil }
+
+
+// ---------------------------------------------------------------- raw transport (nclient4.New's stack)
+
+// rawAdapter sits between the fake connection and nclient4.NewBroadcastUDPConn: every datagram the fake connection
+// delivers is wrapped in an IPv4+UDP frame addressed to the client port (header fields that do not identify the
+// datagram vary: TOS, identification, DF, TTL, IP options, link-layer padding; now and then a frame that is not for
+// the client comes first), and every frame the client writes is unwrapped again.
+type rawAdapter struct {
+	f    *fakeConn
+	pend [][]byte
+	n    uint32
+}
+
+func csum16(b []byte) uint16 {
+	var v uint32
+	for i := 0; i+1 < len(b); i += 2 {
+		v += uint32(b[i])<<8 | uint32(b[i+1])
+	}
+	if len(b)%2 == 1 {
+		v += uint32(b[len(b)-1]) << 8
+	}
+	for v>>16 != 0 {
+		v = v&0xffff + v>>16
+	}
+	return ^uint16(v)
+}
+
+func (r *rawAdapter) frame(payload []byte, proto byte, dport int) []byte {
+	r.n = r.n*1664525 + 1013904223
+	h := r.n >> 8
+	ihl := 5
+	if h%7 == 0 {
+		ihl = 6 // one word of IP options (no-operation)
+	}
+	total := ihl*4 + 8 + len(payload)
+	f := make([]byte, total, total+8)
+	f[0] = 0x40 | byte(ihl)
+	f[1] = byte(h >> 3)                  // TOS
+	f[2], f[3] = byte(total>>8), byte(total)
+	f[4], f[5] = byte(h>>11), byte(h>>5) // identification
+	if h%2 == 0 {
+		f[6] = 0x40 // don't fragment
+	}
+	f[8] = byte(1 + h%255) // TTL
+	f[9] = proto
+	copy(f[12:16], []byte{10, 0, 0, 1})
+	copy(f[16:20], []byte{255, 255, 255, 255})
+	for i := 20; i < ihl*4; i++ {
+		f[i] = 1
+	}
+	c := csum16(f[:ihl*4])
+	f[10], f[11] = byte(c>>8), byte(c)
+	u := f[ihl*4:]
+	u[0], u[1] = 0, 67
+	u[2], u[3] = byte(dport>>8), byte(dport)
+	u[4], u[5] = byte((8+len(payload))>>8), byte(8+len(payload))
+	copy(u[8:], payload)
+	if h%5 == 0 {
+		f = append(f, 0, 0, 0, 0, 0, 0)[:total+int(h%6)] // link-layer padding after the IP datagram
+	}
+	return f
+}
+
+func (r *rawAdapter) ReadFrom(b []byte) (int, net.Addr, error) {
+	if len(r.pend) == 0 {
+		tmp := make([]byte, 65536)
+		n, _, err := r.f.ReadFrom(tmp)
+		if err != nil {
+			return 0, nil, err
+		}
+		switch r.n >> 13 % 4 {
+		case 0:
+			r.pend = append(r.pend, r.frame([]byte{1, 2, 3}, 6, 68)) // not UDP
+		case 1:
+			r.pend = append(r.pend, r.frame(tmp[:n], 17, 67)) // for another port
+		}
+		r.pend = append(r.pend, r.frame(tmp[:n], 17, 68))
+	}
+	f := r.pend[0]
+	r.pend = r.pend[1:]
+	return copy(b, f), &net.UDPAddr{}, nil
+}
+
+func (r *rawAdapter) WriteTo(b []byte, _ net.Addr) (int, error) {
+	if len(b) < 28 || b[0] != 0x45 {
+		return r.f.WriteTo(b, &net.UDPAddr{}) // not a frame this harness understands: shown as a wrong destination
+	}
+	dst := &net.UDPAddr{IP: net.IP(append([]byte(nil), b[16:20]...)), Port: int(b[22])<<8 | int(b[23])}
+	n, err := r.f.WriteTo(b[28:], dst)
+	if err != nil {
+		return 0, err
+	}
+	return n + 28, nil
+}
+func (r *rawAdapter) Close() error                       { return r.f.Close() }
+func (r *rawAdapter) LocalAddr() net.Addr                { return r.f.LocalAddr() }
+func (r *rawAdapter) SetDeadline(t time.Time) error      { return nil }
+func (r *rawAdapter) SetReadDeadline(t time.Time) error  { return nil }
+func (r *rawAdapter) SetWriteDeadline(t time.Time) error { return nil }
